@@ -209,7 +209,8 @@ _p('C06', 'exploration',
    design_ref='DESIGN.md 3/C06', expected_probes=['rebase-registry-with-subregistries', 'rebase-registry-two-levels-above-bottom', 'rebuild-of-a-base-registry'])
 
 _p('C07', 'exploration',
-   [Part('registry', {'props': ['C07'], 'shape': 'subs'}, configs=REG_CFG, quick=12000, thorough=500000, name='registry/C07')],
+   [Part('registry', {'props': ['C07'], 'shape': 'subs'}, configs=REG_CFG, quick=12000, thorough=500000, name='registry/C07'),
+    Part('registry', {'props': ['C07'], 'shape': 'chain'}, configs=[(C, 2), (PY, 2)], quick=3000, thorough=150000, name='registry/C07/chains', timeout=40.0)],
    rule='one case = one seeded subscribe/unsubscribe history (duplicates, equal-but-distinct values, handlers, arity 0-3, registry chains); at probe '
         'points subscriptions() of every key is compared with the model list of live subscriptions as a multiset and for the specified part of the '
         'order (base registries first; less specific required keys first, component-wise for arity >= 2; identical keys in subscription order); '
